@@ -46,11 +46,54 @@ T = [
  ("C19-bcdd-substitution-id-from-address", "C19", "C19-out", "patch2.diff", "demo2_bcdd_substitution.c", "C19b", ["C19-b"], "BCDD substitution ids derived from the object's address: free a substitution, create another one (allocator reuses the block), apply it to the same function with no gc in between"),
  ("C20-pointer-varlevelmap", "C20", "C20-out", "patch.diff", "seeded_C20.rs", "C20a", ["c20a"], "pointer-based manager only: a reordering that swaps a level whose variable number differs from its level number"),
  ("C20-nomt-apply-unique-swap", "C20", "C20-out", "patch2.diff", "demo2_seeded_C20_2.rs", "C20b", ["c20b"], "build without multi-threading only: apply_unique with Imp/ImpStrict on simple BDDs"),
+ # ---- second round (different code sites and mechanisms; /tmp/seed2) ----
+ ("R2-C01-zbdd-restrict-unreduced-empty", "C01", "/tmp/seed2/C01-out", "patch.diff", "seeded_C01.rs", "r2-C01a", ["r2-C01a"], "ZBDD restrict, >= 3 variables, f reaching Base, cube with a negative literal, an unmentioned variable and a positive literal below it: result is an unreduced node (l; Empty, Empty) instead of the Empty terminal"),
+ ("R2-C01-f64-mul-unnormalised", "C01", "/tmp/seed2/C01-out", "patch2.diff", "seeded_C01_2.rs", "r2-C01b", ["r2-C01b"], "MTBDD over F64: negative x 0 or inf x 0 creates a second zero / NaN terminal (F64::mul skips the normalisation): equal value tables, different handles"),
+ ("R2-C02-zbdd-not-cache-fastpath", "C02", "/tmp/seed2/C02-out", "patch.diff", "seeded_C02.rs", "r2-C02a", ["r2-C02a", "r2-C02a2"], "ZBDD negation-based connective, then add_vars, then the same operand again with no gc in between: complement w.r.t. the old domain is served from the cache"),
+ ("R2-C02-bcdd-eval-repeated-var", "C02", "/tmp/seed2/C02-out", "patch2.diff", "demo2_seeded_C02_2.rs", "r2-C02b", ["r2-C02b"], "BCDD eval with a variable listed twice, first false then true (documented: the last value counts)"),
+ ("R2-C03-bcdd-ite-level", "C03", "/tmp/seed2/C03-out", "patch.diff", "seeded_C03.rs", "r2-C03a", ["r2-C03a"], "BCDD ite whose else operand is the only one with the top-most variable (>= 3 levels, general case): node with a child on a higher level"),
+ ("R2-C03-dddmp-ascii-same-level-child", "C03", "/tmp/seed2/C03-out", "patch2.diff", "seeded_C03_2.rs", "r2-C03b", ["r2-C03b"], "malformed ASCII DDDMP file in which a node and its child carry the same variable is accepted (level check > instead of >=)"),
+ ("R2-C04-subst-resize-truncates", "C04", "/tmp/seed2/C04-out", "patch.diff", "seeded_C04.rs", "r2-C04a", ["r2-C04a"], "BDD substitution whose variables are listed with non-ascending levels (e.g. [2, 0], or ascending under a non-identity order): deeper replacements are dropped"),
+ ("R2-C04-subst-id-check-then-act", "C04", "/tmp/seed2/C04-out", "patch2.diff", "seeded_C04_2.rs", "r2-C04b", ["r2-C04b"], "two substitution objects created at the same instant on different threads get the same identifier (load + store instead of fetch_add) and share cache entries"),
+ ("R2-C05-zbdd-addvars-frees-node", "C05", "/tmp/seed2/C05-out", "patch.diff", "seeded_C05.rs", "r2-C05a", ["r2-C05a", "r2-C05a2"], "ZBDD: a cached operation whose result is the top tautology node with no other reference, then add_vars (node freed outside a pre_gc/post_gc bracket, slot reused), then the same operation"),
+ ("R2-C05-levelswap-forget-node", "C05", "/tmp/seed2/C05-out", "patch2.diff", "seeded_C05_2.rs", "r2-C05b", ["r2-C05b"], "level_swap finding the new cofactor node among the old upper-level nodes: the candidate node is forgotten instead of dropped, one reference per grandchild leaks (function values stay right)"),
+ ("R2-C06-pregc-keeps-live-entries", "C06", "/tmp/seed2/C06-out", "patch.diff", "seeded_C06.rs", "r2-C06a", ["r2-C06a"], "apply cache keeps entries whose nodes have a non-zero count at pre_gc: nodes referenced only by dead parents are freed in the same sweep, the slot is reused, the stale entry is served"),
+ ("R2-C06-subst-id-check-then-act", "C06", "/tmp/seed2/C06-out", "patch2.diff", "seeded_C06_demo2.rs", "r2-C06b", ["r2-C06b"], "substitution identifiers (numeric part of the substitute cache key) not unique when created concurrently"),
+ ("R2-C07-gcthread-stale-freelist-head", "C07", "/tmp/seed2/C07-out", "patch.diff", "seeded_C07.rs", "r2-C07a", ["r2-C07a", "r2-C07a2"], "the background gc thread must collect at least twice (store filled to 95 %, below 90 %, filled again): it keeps the free-list head it already handed over, live nodes get overwritten"),
+ ("R2-C07-subst-id-check-then-act", "C07", "/tmp/seed2/C07-out", "patch2.diff", "demo2_seeded_C07_2.rs", "r2-C07b", ["r2-C07b", "r2-C07b2"], "two threads inside Subst::new at the same moment get the same identifier; substitute then returns the other substitution's cached result"),
+ ("R2-C08-reorder-gccount-only-if-shrunk", "C08", "/tmp/seed2/C08-out", "patch.diff", "seeded_C08.rs", "r2-C08a", ["r2-C08a", "r2-C08a2"], "a reordering that frees and re-issues node ids without shrinking the diagram while a SatCountCache is kept across it (gc_count not advanced)"),
+ ("R2-C08-concurrent-sort-blocked-check", "C08", "/tmp/seed2/C08-out", "patch2.diff", "seeded_C08_2.rs", "r2-C08b", ["r2-C08b", "r2-C08b-s"], "concurrent bubble sort (>= 2 workers, >= 65536 nodes, >= 4 levels to move): two swaps touching a common level run at the same time"),
+ ("R2-C09-tryremove-outside-reorder", "C09", "/tmp/seed2/C09-out", "patch.diff", "seeded_C09.rs", "r2-C09a", ["r2-C09a"], "ZBDD: an operation whose operand or result is the full power set, no live handle on it, add_vars without gc: the tautology chain is freed and its slots reused while cache entries alias them"),
+ ("R2-C09-zbdd-eval-repeated-var", "C09", "/tmp/seed2/C09-out", "patch2.diff", "seeded_C09_2.rs", "r2-C09b", ["r2-C09b"], "ZBDD eval with a variable listed twice, first true then false"),
+ ("R2-C10-f64-div-negative-zero", "C10", "/tmp/seed2/C10-out", "patch.diff", "seeded_C10.rs", "r2-C10a", ["r2-C10a"], "MTBDD over F64: a zero quotient of negative sign (0 / -1, finite / -inf) keeps -0.0 as a leaf"),
+ ("R2-C10-restrict-negative-literal-skipped-level", "C10", "/tmp/seed2/C10-out", "patch2.diff", "seeded_C10_demo2.rs", "r2-C10b", ["r2-C10b"], "MTBDD restrict with a negative literal on a level the function skips and at least one more literal below it"),
+ ("R2-C11-var-level-confusion", "C11", "/tmp/seed2/C11-out", "patch.diff", "seeded_C11.rs", "r2-C11a", ["r2-C11a"], "TDD var() called after a reordering (variable number used as level)"),
+ ("R2-C11-eval-shift-precedence", "C11", "/tmp/seed2/C11-out", "patch2.diff", "demo2_seeded_C11_2.rs", "r2-C11b", ["r2-C11b"], "TDD eval in a manager with at least 9 variables: nodes at levels l with l % 16 >= 8 read the choice of the variable 8 levels above"),
+ ("R2-C12-saturating-shl-boundary", "C12", "/tmp/seed2/C12-out", "patch.diff", "seeded_C12.rs", "r2-C12a", ["r2-C12a"], "sat_count into u64 / u128 with exactly 63 / 127 variables (1 << 63 reported as the saturation marker)"),
+ ("R2-C12-natural-to-u128-spare-digit", "C12", "/tmp/seed2/C12-out", "patch2.diff", "seeded_C12_2.rs", "r2-C12b", ["r2-C12b"], "TryFrom<&Natural> for u128 of an odd value in [2^127, 2^128) that came out of an addition (spare leading zero digit)"),
+ ("R2-C13-bdd-pickcube-var-level", "C13", "/tmp/seed2/C13-out", "patch.diff", "seeded_C13.rs", "r2-C13a", ["r2-C13a"], "BDD pick_cube under a variable order that is not its own inverse (3-cycle)"),
+ ("R2-C13-zbdd-pickcubedd-dontcare", "C13", "/tmp/seed2/C13-out", "patch2.diff", "seeded_C13_b.rs", "r2-C13b", ["r2-C13b"], "ZBDD pick_cube_dd whose path passes a hi == lo node whose child is not already a cube (>= 3 variables)"),
+ ("R2-C14-localstate-freelist-lost", "C14", "/tmp/seed2/C14-out", "patch.diff", "seeded_C14.rs", "r2-C14a", ["r2-C14a"], "a session that pops a k-slot free list and allocates exactly one node (delta 0) loses k-1 slots: after drop + gc the retried operation still reports out of memory"),
+ ("R2-C14-bcdd-subst-prepare-late-guard", "C14", "/tmp/seed2/C14-out", "patch2.diff", "seeded_C14_2.rs", "r2-C14b", ["r2-C14b", "r2-C14b2", "r2-C14b3"], "BCDD substitution: out of memory while creating the variable node of an unsubstituted upper level after at least one entry was pushed (preparation phase, before the recursion)"),
+ ("R2-C15-export-bin-relative-level", "C15", "/tmp/seed2/C15-out", "patch.diff", "seeded_C15.rs", "r2-C15a", ["r2-C15a"], "binary export of a BCDD node whose children are both inner nodes with the else child above the then child and >= 6 support variables (relative variable code)"),
+ ("R2-C15-export-generated-name-underscores", "C15", "/tmp/seed2/C15-out", "patch2.diff", "seeded_C15_2.rs", "r2-C15b", ["r2-C15b"], "a generated variable name that equals an existing name (one underscore too few)"),
+ ("R2-C16-addnamed-empty-name-counter", "C16", "/tmp/seed2/C16-out", "patch.diff", "seeded_C16.rs", "r2-C16a", ["r2-C16a"], "one add_named_vars call with an empty name in front of a non-empty one"),
+ ("R2-C16-addnamed-rejected-call-grows-names", "C16", "/tmp/seed2/C16-out", "patch2.diff", "seeded_C16_2.rs", "r2-C16b", ["r2-C16b"], "a rejected add_named_vars call (duplicate after fresh entries) leaves the name map longer than the level table"),
+ ("R2-C17-remove-tombstone-successor", "C17", "/tmp/seed2/C17-out", "patch.diff", "demo1_seeded_C17.rs", "r2-C17a", ["r2-C17a"], "collision cluster a b c: remove b, then a (successor is a tombstone): the slot is freed and c becomes unreachable"),
+ ("R2-C17-clone-drops-tombstones", "C17", "/tmp/seed2/C17-out", "patch2.diff", "demo2_seeded_C17_2.rs", "r2-C17b", ["r2-C17b"], "clone() of a table with a tombstone inside a cluster: the clone has a free slot there"),
+ ("R2-C18-simplify-xor-polarity-in-unique-table", "C18", "/tmp/seed2/C18-out", "patch.diff", "seeded_C18.rs", "r2-C18a", ["r2-C18a"], "two XOR gates normalising to the same input set in one simplify call, the first one of odd parity"),
+ ("R2-C18-aiger-binary-latch-reset-base", "C18", "/tmp/seed2/C18-out", "patch2.diff", "seeded_C18_2.rs", "r2-C18b", ["r2-C18b"], "binary AIGER with an uninitialised latch (explicit reset literal) and at least one input"),
+ ("R2-C19-addnode-oom-forgets-children", "C19", "/tmp/seed2/C19-out", "patch.diff", "seeded_C19.rs", "r2-C19a", ["r2-C19a"], "out of memory at a node whose children are inner nodes (small-capacity manager through the C API): after unref of everything and gc nodes remain"),
+ ("R2-C19-bdd-setvarorder-len2", "C19", "/tmp/seed2/C19-out", "patch2.diff", "demo2_capi.c", "r2-C19b", ["r2-C19b"], "oxidd_bdd_manager_set_var_order with exactly two variables that are currently inverted is ignored (len <= 2 shortcut)"),
+ ("R2-C20-zbdd-subset-cache-key-level", "C20", "/tmp/seed2/C20-out", "patch.diff", "seeded_C20.rs", "r2-C20a", ["r2-C20a"], "apply cache compiled in only: ZBDD subset0/subset1/change under a non-identity order, the same node first with variable w then with v where level(w) == v"),
+ ("R2-C20-parallel-ternary-late-guard", "C20", "/tmp/seed2/C20-out", "patch2.diff", "seeded_C20_2.rs", "r2-C20b", ["r2-C20b", "r2-C20b2", "r2-C20b3"], "multi-threading with >= 2 workers only: ite / apply-quantify whose first joined branch fails with out of memory while the second succeeds (its edge is never released)"),
 ]
 summary = []
 for sid, prop, out, patch, demo, conf, evals, needs in T:
     src = os.path.join(S, out)
     if not os.path.exists(os.path.join(src, patch)):
+        continue
+    if sid.startswith("R2-") and os.path.exists(os.path.join(ROOT, "seeded", sid, "meta.json")) and not os.path.exists(os.path.join(src, patch)):
         continue
     cj = f"/tmp/seedconf/{conf}.json"
     conf_res = json.load(open(cj)) if os.path.exists(cj) else None
